@@ -20,7 +20,8 @@
 
   Ghost components (never influence a label or a non-ghost field): `Node.claim` (the key whose
   insert won the CAS on a slot), `State.chain` (ids linked from the head), `State.log`
-  (call / return history), `Frame.built` (the construct step of this call has run).
+  (call / return history), `Frame.built` (the construct step of this call has run), `Frame.must`
+  (the slot that a call for the same key had already returned when this call began).
   Core Lean only.
 -/
 import Babylon.Swiss.Seq
@@ -58,6 +59,7 @@ structure Frame where
   base : Nat                      -- `base_index`
   w : List Ctl                    -- the bytes of `Group {controls}` loaded so far
   built : Bool := false           -- ghost
+  must : Option (Nat × Nat) := none   -- ghost: the slot an earlier call for this key had returned when this call began
   deriving DecidableEq, Repr, Inhabited
 
 inductive Res
@@ -82,7 +84,7 @@ inductive Pc
 
 inductive Event
   | call (t : Nat) (k : Kind) (e : Elem)
-  | ret (t : Nat) (k : Kind) (e : Elem) (r : Res) (built : Bool)
+  | ret (t : Nat) (k : Kind) (e : Elem) (r : Res) (built : Bool) (must : Option (Nat × Nat))
   deriving DecidableEq, Repr
 
 structure State where
@@ -101,7 +103,8 @@ def Node.placeholder : Node := Node.ofTable Table.placeholder
 def State.init (head : Table) : State :=
   { nodes := [Node.ofTable head], chain := [0], pc := fun _ => .idle, log := [] }
 
-def State.node (s : State) (tb : Nat) : Node := s.nodes.getD tb Node.placeholder
+def nodeAt (ns : List Node) (tb : Nat) : Node := ns.getD tb Node.placeholder
+def State.node (s : State) (tb : Nat) : Node := nodeAt s.nodes tb
 def State.setNode (s : State) (tb : Nat) (nd : Node) : State := { s with nodes := s.nodes.set tb nd }
 
 /-- unsigned reading of a control byte, as VRT prints it -/
@@ -218,14 +221,20 @@ def stepThread (hash : Nat → Nat) (s : State) (t : Nat) : Option (State × Lab
       some (setPc s' t (enter hash s' f nw), lab true 0)
     | some nx => some (setPc s t (enter hash s f nx), lab false nx)   -- `delete new_node`
 
+/-- ghost: the slot returned by the first call in the history that returned an element with key `key` -/
+def doneOf (log : List Event) (key : Nat) : Option (Nat × Nat) :=
+  log.findSome? (fun ev => match ev with
+    | .ret _ _ e (.slot tb i _) _ _ => if e.1 = key then some (tb, i) else none
+    | _ => none)
+
 /-- an idle thread calls an operation (on node 0 = the fixed table / the head of the set) -/
 def doCall (hash : Nat → Nat) (s : State) (t : Nat) (k : Kind) (e : Elem) : State :=
-  let f : Frame := { kind := k, e := e, tb := 0, n := 0, step := 0, base := 0, w := [] }
+  let f : Frame := { kind := k, e := e, tb := 0, n := 0, step := 0, base := 0, w := [], must := doneOf s.log e.1 }
   { s with pc := upd s.pc t (enter hash s f 0), log := s.log ++ [.call t k e] }
 
 /-- the call returns -/
 def doRet (s : State) (t : Nat) (f : Frame) (r : Res) : State :=
-  { s with pc := upd s.pc t .idle, log := s.log ++ [.ret t f.kind f.e r f.built] }
+  { s with pc := upd s.pc t .idle, log := s.log ++ [.ret t f.kind f.e r f.built f.must] }
 
 inductive Step (hash : Nat → Nat) : State → State → Prop
   | act (s : State) (t : Nat) (s' : State) (l : Label) : stepThread hash s t = some (s', l) → Step hash s s'
